@@ -29,6 +29,8 @@
 #include <sys/mman.h>
 #include <unistd.h>
 #include <errno.h>
+#include <stdarg.h>
+#include <sys/syscall.h>
 #include <memory>
 #include <set>
 #include <map>
@@ -122,6 +124,26 @@ int __wrap_ftruncate(int fd, off_t n) {
 int __wrap_ftruncate64(int fd, off64_t n) {
   if (must_fail(kVm)) { errno = ENOSPC; return -1; }
   return __real_ftruncate64(fd, n);
+}
+// `memfd_create` is called through syscall(): a variadic wrapper that forwards six register arguments (x86-64 / AArch64
+// SysV: reading unused variadic slots is harmless); only __NR_memfd_create is counted and may fail (ENFILE, never ENOSYS:
+// ENOSYS would switch the library to shm_open for the rest of the process).
+long __real_syscall(long n, ...);
+long __wrap_syscall(long n, ...) {
+  va_list ap;
+  va_start(ap, n);
+  long a[6];
+  for (int i = 0; i < 6; i++) a[i] = va_arg(ap, long);
+  va_end(ap);
+#ifdef __NR_memfd_create
+  if (n == __NR_memfd_create) {
+    if (must_fail(kVm)) { errno = ENFILE; return -1; }
+    long fd = __real_syscall(n, a[0], a[1], a[2], a[3], a[4], a[5]);
+    if (g_track && fd >= 0) g_live_fd->insert(int(fd));
+    return fd;
+  }
+#endif
+  return __real_syscall(n, a[0], a[1], a[2], a[3], a[4], a[5]);
 }
 int __wrap_close(int fd) {
   if (g_live_fd) g_live_fd->erase(fd);
